@@ -257,6 +257,102 @@ func runC03(r *core.Run) {
 			return core.Outcome{Class: fmt.Sprint("deviations=", nd), Nontrivial: nd > 0, Evals: 3}
 		})
 
+	core.Clause(r, "all-bytes-fields", core.Opts{Rule: "every byte value except TAB, CR, LF in every text field (Qname, Rname, Cigar, Rnext, Seq, Qual) and in a Z tag: alone, first, in the middle, last ('@' not first in Qname); non-trivial = all"},
+		func(emit func(samRec) bool) {
+			for b := 0; b < 256; b++ {
+				if b == '\t' || b == '\r' || b == '\n' {
+					continue
+				}
+				for fi := 0; fi < 7; fi++ {
+					for _, v := range []string{string([]byte{byte(b)}), string([]byte{byte(b), 'a'}), string([]byte{'a', byte(b), 'c'}), string([]byte{'a', byte(b)})} {
+						if fi == 0 && v[0] == '@' {
+							continue
+						}
+						rec := defaultSamRec()
+						switch fi {
+						case 0:
+							rec.Qname = core.S(v)
+						case 1:
+							rec.Rname = core.S(v)
+						case 2:
+							rec.Cigar = core.S(v)
+						case 3:
+							rec.Rnext = core.S(v)
+						case 4:
+							rec.Seq = core.S(v)
+						case 5:
+							rec.Qual = core.S(v)
+						case 6:
+							rec.Tags = []samTag{{Name: "XZ", Type: "Z", Z: core.S(v)}}
+						}
+						if !emit(rec) {
+							return
+						}
+					}
+				}
+			}
+		},
+		func(rec samRec) core.Outcome {
+			if out := checkSAMRoundTrip(rec); out.Fail != "" {
+				return out
+			}
+			return core.Outcome{Class: "ok", Nontrivial: true, Evals: 3}
+		})
+
+	var slens []int
+	for l := 0; l <= 120; l++ {
+		slens = append(slens, l)
+	}
+	for _, c := range []int{4096, 8192, 65536} {
+		for l := (c - 60) / 2; l <= (c+8)/2; l++ {
+			slens = append(slens, l)
+		}
+	}
+	slens = append(slens, 65536, 65537, 131072, core.Pick(r, 500000, 4000000))
+	r.Bound("long-lines", "a file of a header and three alignment lines whose middle line has Seq and Qual of every length 0..120, every length such that the line length sweeps [c-60, c+8] for c in {4096, 8192, 65536} (internal buffer sizes), 65536, 65537, 131072 and one larger; also the same lengths in a Z tag")
+	core.Clause(r, "long-lines", core.Opts{Rule: "alignment lines of every listed length between two ordinary lines; all three records must come back identical; non-trivial = length >= 2"},
+		func(emit func(c03Flag) bool) {
+			for _, l := range slens {
+				if !emit(c03Flag{l}) || !emit(c03Flag{-l - 1}) {
+					return
+				}
+			}
+		},
+		func(c c03Flag) core.Outcome {
+			l, inTag := c.Value, false
+			if l < 0 {
+				l, inTag = -l-1, true
+			}
+			mid := defaultSamRec()
+			mid.Qname = "long"
+			if inTag {
+				mid.Tags = []samTag{{Name: "XZ", Type: "Z", Z: core.S(longSeq(2 * l))}, {Name: "NM", Type: "i", I: 7}}
+			} else {
+				mid.Seq, mid.Qual = core.S(longSeq(l)), core.S(strings.Repeat("I\"J#", l/4+1)[:l])
+			}
+			first, last := defaultSamRec(), defaultSamRec()
+			first.Qname, last.Qname = "first", "last"
+			var file bytes.Buffer
+			file.WriteString("@HD\tVN:1.6\n")
+			var want []obsItem
+			for _, rc := range []samRec{first, mid, last} {
+				d, fail := writeSAMChecked(rc.build())
+				if fail != "" {
+					return core.Failf("%s", fail)
+				}
+				file.Write(d)
+				want = append(want, obsItem{Rec: renderSAM(rc.build())})
+			}
+			got, p := readSAMAll(file.Bytes())
+			if p != "" {
+				return core.Failf("Reader panicked/hung on a line with %d-byte fields: %s", l, p)
+			}
+			if !sameShape(got, want) {
+				return core.Failf("a file whose middle alignment line has fields of %d bytes (line length %d, in tag: %v) reads back as %s", l, len(file.Bytes())-60, inTag, trunc(renderObs(got), 300))
+			}
+			return core.Outcome{Class: fmt.Sprint("tag=", inTag), Nontrivial: l >= 2, Evals: 4}
+		})
+
 	// tags
 	var full []samTag
 	for b := 0x21; b <= 0x7e; b++ {
